@@ -247,3 +247,47 @@ def k1_runnable(res, tier):
         if r.kind in ('panic', 'oob', 'unreachable', 'ub', 'diverge', 'depth'):
             res.fail(f'C07.K1:runnable_waiter:{r.kind}', f'path ends in {r.kind}: {str(r.info)[:200]}', {'path': str(r.info)})
     summarize_paths(res, e, results, lambda r: r.info if isinstance(r.info, dict) else None, key_prefix='C07.K1:runnable_waiter:', unwind_ok=True)
+
+
+# ---------------------------------------------------------------------------------------------- K2 close and parked fibers
+F47_SRC = ('let c = chan();\nlet done = chan(1);\nfn r() { print(<- c); done <- 1; }\nlaunch r();\nfn closer() { c.close(); }\nlaunch closer();\nprint(<- done);\n')
+F47_REPLAY = dict(kind='lay', source=F47_SRC, expect_stdout='nil\n1\n', bad_re='deadlock')
+
+
+@obligation('C07.K2.close_wakes_receivers', 'C07', programs=('core',))
+def k2_close(res, tier):
+    """ChannelQueue::close on an open queue on which receivers are parked (blocked, not runnable): once the queue is closed every
+    receive can complete (a buffered value or nil), so a parked receiver must be made runnable (or handed back for waking) by the
+    close; otherwise it waits forever for an operation that has become possible"""
+    P = get_program('core')
+    K = 2 if tier == 'quick' else 3
+    res.bounds = {'waiter_lists': f'<= {K} entries each', 'queue_length': 'any <= capacity'}
+    res.assumptions = ['a fiber parked in a receive is in receive_waiters with its runnable flag cleared (op_receive: EmptyBlock -> Fiber::block)']
+    f = P.lookup('ChannelQueue::close')
+    e = _engine(P, K)
+
+    def path(e):
+        st = _queue_state(e, P, K)
+        e.add_constraint(st.stt0 == st.S['Ready'])
+        e.add_constraint(z3.UGE(st.rw.len, 1))
+        first = st.rw.seq.load(e, st.rw.head)
+        flag_cell = first.data_cell(e).get(e).field(e, 0, 'bool')
+        flag_cell.set(e, False)                        # parked: blocked, not runnable
+        r = e.call(f, [Ref(Cell(st.q))])
+        stt = _inv_after(e, st)
+        e.check(z3.Or(stt == st.S['Closed'], stt == st.S['ClosedEmpty']), 'close: the queue is closed')
+        runnable = flag_cell.get(e)
+        handed = st.rw.head != st.rw0[0]
+        e.check(z3.Or(to_z3_bool(runnable), handed), 'close: a receiver parked on the queue is made runnable (its receive can now complete)')
+        return {'receivers parked': '>= 1'}
+    results = e.explore(path)
+    for r in results:
+        for lab, ok, info in list(r.checks):
+            if not ok and 'parked on the queue is made runnable' in lab:
+                res.fail('C07.K2:close leaves parked receivers blocked',
+                         'ChannelQueue::close only changes the state: a fiber blocked in `<- c` stays in receive_waiters with its runnable flag cleared, nobody wakes it, '
+                         'and the program ends in "Fatal error deadlock" although the receive could yield nil', info, replay=F47_REPLAY)
+                r.checks.remove((lab, ok, info))
+        if r.kind in ('panic', 'oob', 'unreachable', 'ub', 'diverge', 'depth'):
+            res.fail(f'C07.K2:close:{r.kind}', f'path ends in {r.kind}: {str(r.info)[:200]}', {'path': str(r.info)})
+    summarize_paths(res, e, results, lambda r: r.info if isinstance(r.info, dict) else None, key_prefix='C07.K2:close:', unwind_ok=True)
